@@ -81,7 +81,7 @@ class ContactFieldReference:
     def render(self):
         render_dict = {"name": self.name, "key": self.key}
         if self.type:
-            render_dict["type"] = type
+            render_dict["type"] = self.type
         return render_dict
 
     def render_with_label(self):
